@@ -202,14 +202,9 @@ def gamma(a, codec=None, kinds=None):
     return arr
 
 
-def project(obj, codec=None):
-    """DimArray or scalar -> abstract array dict (scalar: 0-d, 'scalar': True)."""
+def project_axes(obj, codec=None):
+    """dims / kinds / labels / axis attrs / attrs of a DimArray (no cells)"""
     codec = codec or LabelCodec()
-    if not isinstance(obj, DimArray):
-        if isinstance(obj, np.ndarray):
-            raise Unprojectable("bare ndarray result")
-        return {"dims": [], "kinds": [], "labs": [], "aattrs": [], "cells": [cell_dec(obj)],
-                "dtype": dtype_kind(np.asarray(obj).dtype), "attrs": None, "scalar": True}
     dims, kinds, labs, aattrs = [], [], [], []
     for ax in obj.axes:
         dims.append(ax.name)
@@ -223,9 +218,21 @@ def project(obj, codec=None):
     wf = wellformed_defects(obj)
     if wf:
         raise Unprojectable("ill-formed DimArray: " + "; ".join(wf))
-    cells = [cell_dec(x) for x in values.ravel(order="C").tolist()]
-    return {"dims": dims, "kinds": kinds, "labs": labs, "aattrs": aattrs, "cells": cells,
+    return {"dims": dims, "kinds": kinds, "labs": labs, "aattrs": aattrs,
             "dtype": dtype_kind(values.dtype), "attrs": attrs_dec(obj.attrs), "scalar": False}
+
+
+def project(obj, codec=None):
+    """DimArray or scalar -> abstract array dict (scalar: 0-d, 'scalar': True)."""
+    codec = codec or LabelCodec()
+    if not isinstance(obj, DimArray):
+        if isinstance(obj, np.ndarray):
+            raise Unprojectable("bare ndarray result")
+        return {"dims": [], "kinds": [], "labs": [], "aattrs": [], "cells": [cell_dec(obj)],
+                "dtype": dtype_kind(np.asarray(obj).dtype), "attrs": None, "scalar": True}
+    p = project_axes(obj, codec)
+    p["cells"] = [cell_dec(x) for x in obj.values.ravel(order="C").tolist()]
+    return p
 
 
 def wellformed_defects(obj):
@@ -266,7 +273,7 @@ def compare(exp, act, free_kinds=False, dtype_any=None, check_attrs=True, check_
         for ek, ak, labs in zip(exp["kinds"], act["kinds"], act["labs"]):
             if len(labs) and ek != ak:
                 return "label kind: expected %s got %s" % (exp["kinds"], act["kinds"])
-    if exp["cells"] != act["cells"]:
+    if "cells" in exp and "cells" in act and exp["cells"] != act["cells"]:
         return "cells: expected %s got %s" % (exp["cells"], act["cells"])
     allowed = dtype_any if dtype_any is not None else [exp["dtype"]]
     if act["dtype"] not in allowed:
